@@ -4,6 +4,11 @@
 (* Puzzle runs are oracle inputs (e.runs), as in Generator.tla.              *)
 EXTENDS Generator
 
+\* trees are logged in flat list form
+NormSbRun(r) == IF "res" \in DOMAIN r THEN [r EXCEPT !.res = FromJ(@)] ELSE r
+NormSb(e) == [e EXCEPT !.spends = [i \in DOMAIN @ |-> [@[i] EXCEPT !.puzzle = FromJ(@), !.solution = FromJ(@)]],
+                       !.runs = [i \in DOMAIN @ |-> NormSbRun(@[i])]]
+
 Rev(s) == [i \in DOMAIN s |-> s[Len(s) + 1 - i]]
 
 \* (q . (((parent puzzle amount solution) ...))) - build_generator prepends, so the list is reversed
